@@ -33,9 +33,9 @@ MECH = ["nutree.node:Node.add_child", "nutree.node:Node._calc_insert_pos", "nutr
         "nutree.node:Node.move_to", "nutree.node:Node.set_data", "nutree.node:Node.remove", "nutree.node:Node.filter",
         "nutree.node:Node._add_filtered", "nutree.node:Node.sort_children", "nutree.node:Node.to_list_iter", "nutree.tree:Tree.save",
         "nutree.tree:Tree._from_list", "nutree.node:Node.from_dict", "nutree.common:call_mapper", "nutree.common:call_predicate"]
-MIN_NONTRIVIAL = {"quick": 10000, "thorough": 150000}
+MIN_NONTRIVIAL = {"quick": 10000, "thorough": 100000}
 MIN_COUNTERS = {"quick": {"faults_injected": 5000, "refusals_state_compared": 5000, "table_refusals": 300},
-                "thorough": {"faults_injected": 100000, "refusals_state_compared": 100000, "table_refusals": 3000}}
+                "thorough": {"faults_injected": 50000, "refusals_state_compared": 50000, "table_refusals": 3000}}
 OWN = "C13"
 
 
